@@ -164,6 +164,24 @@ func DNSMsg(t *rapid.T, o DNSOptions) ref.Msg {
 	for i := rapid.IntRange(0, 5).Draw(t, "nan"); i > 0; i-- {
 		m.Answers = append(m.Answers, rr("an"))
 	}
+	if rapid.IntRange(0, 7).Draw(t, "ladder") == 0 {
+		// a ladder of owner names, each one label longer than the previous: under suffix compression the k-th owner is
+		// reached through k pointers (RFC 1035 sets no limit below what 255 octets allow)
+		base := ref.Name{"lan"}
+		if len(m.Questions) > 0 && m.Questions[0].Name.WireLen() <= 60 {
+			base = m.Questions[0].Name
+		}
+		cur := base
+		for k, depth := 0, rapid.IntRange(3, 40).Draw(t, "ladderDepth"); k < depth; k++ {
+			cur = append(ref.Name{"l" + fmt.Sprint(k)}, cur...)
+			if cur.WireLen() > 250 {
+				break
+			}
+			r := ref.RR{Name: cur, Type: 1, Class: 1, TTL: 60}
+			r.A = [4]byte{10, 9, byte(k), 1}
+			m.Answers = append(m.Answers, r)
+		}
+	}
 	if o.MDNS || rapid.IntRange(0, 3).Draw(t, "useAuth") == 0 {
 		for i := rapid.IntRange(0, 3).Draw(t, "nns"); i > 0; i-- {
 			m.Authority = append(m.Authority, rr("ns"))
